@@ -247,8 +247,9 @@ func execSession(in val.V) val.V {
 // real http.Client: what a client receives (status, Content-Type, the whole body) when nothing
 // fails.  net/http is not modelled; this only shows that the recording writer above stands for
 // a real one (which offers both Flush and FlushError).
-//   input  : (n2 (msg ...) (call ...))     at least one call
-//   output : (n<status> x<Content-Type> x<body> (n<returned> ...))
+//
+//	input  : (n2 (msg ...) (call ...))     at least one call
+//	output : (n<status> x<Content-Type> x<body> (n<returned> ...))
 func execRealServer(in val.V) val.V {
 	prov := &realProvider{pool: poolOf(in.At(1)), calls: in.At(2).Items()}
 	ts := httptest.NewServer(&sse.Server{Provider: prov})
